@@ -225,6 +225,7 @@ func itemKey(it Item) string {
 }
 
 func (p *c02) RunCase(i int) *core.CaseResult {
+	defer withNoise()()
 	r := &core.CaseResult{}
 	c := &p.cases[i]
 	sql := p.sqlOf(c)
